@@ -55,6 +55,18 @@ func NewKey() *ecdsa.PrivateKey {
 	return k
 }
 
+// NewKeySmall generates keys until the public point's X ("x"), Y ("y") or both ("xy") start with a zero byte (one key in
+// 256 per coordinate): the raw 32-byte encodings of such coordinates have leading zeros, their big-integer forms are shorter.
+func NewKeySmall(which string) *ecdsa.PrivateKey {
+	for {
+		k := NewKey()
+		x, y := k.X.BitLen() <= 248, k.Y.BitLen() <= 248
+		if which == "x" && x || which == "y" && y || which == "xy" && x && y {
+			return k
+		}
+	}
+}
+
 func ski(k *ecdsa.PublicKey) []byte {
 	h := sha256.Sum256(elliptic.Marshal(k.Curve, k.X, k.Y))
 	return h[:20]
@@ -181,6 +193,23 @@ func NewPKI(w Window, sgxExt []byte) *PKI {
 	inter := Issue(InterTemplate(CNPlatform, w), root, NewKey())
 	tcb := Issue(TcbSignTemplate(w), root, NewKey())
 	leaf := Issue(LeafTemplate(w, sgxExt), inter, NewKey())
+	return &PKI{Root: root, Inter: inter, TcbSign: tcb, Leaf: leaf}
+}
+
+// LookalikePKI builds a hierarchy with fresh keys whose certificates copy every identifier of src's: subject names, serial
+// numbers, subject / authority key identifiers, validity periods. Only the keys (and therefore the signatures) differ.
+func LookalikePKI(src *PKI, sgxExt []byte) *PKI {
+	cp := func(t *x509.Certificate, c *Cert) *x509.Certificate {
+		t.SerialNumber = new(big.Int).Set(c.Cert.SerialNumber)
+		t.SubjectKeyId = append([]byte(nil), c.Cert.SubjectKeyId...)
+		t.NotBefore, t.NotAfter = c.Cert.NotBefore, c.Cert.NotAfter
+		return t
+	}
+	w := Window{src.Root.Cert.NotBefore, src.Root.Cert.NotAfter}
+	root := Issue(cp(RootTemplate(w), src.Root), nil, NewKey())
+	inter := Issue(cp(InterTemplate(CNPlatform, w), src.Inter), root, NewKey())
+	tcb := Issue(cp(TcbSignTemplate(w), src.TcbSign), root, NewKey())
+	leaf := Issue(cp(LeafTemplate(w, sgxExt), src.Leaf), inter, NewKey())
 	return &PKI{Root: root, Inter: inter, TcbSign: tcb, Leaf: leaf}
 }
 
